@@ -540,7 +540,7 @@ def units(tier: str, seed: int) -> list[Unit]:
         for secret in ("auth", "start_creds", "jar"):
             for sh in range(4):
                 us.append(Unit(f"exh4-{secret}-{sh}", unit_exhaustive, {"length": 4, "secret": secret, "shard": sh, "nshards": 4}))
-    n = 500 if tier == "quick" else 12000
+    n = 1500 if tier == "quick" else 12000
     for i in range(10):
         us.append(Unit(f"sampled{i}", unit_sampled, {"n": n, "offset": i}))
     return us
